@@ -109,6 +109,8 @@ def rule_r22_partition(ctx, prog, rule="R22", body=None):
     b = eliminate_static_refs(prog, b)
     from .facts import thread_constant_flags
     b = thread_constant_flags(prog, b)
+    from .facts import lower_checked_arith
+    b = lower_checked_arith(prog, b)
     pv_local, pidx = pivot_local_of(b)
     if pv_local is None:
         ctx.ob(rule, "partition_mut/pivot-value", False, b.where(), "anchor missing: `self[pivot_index].clone()` not found", what="anchor missing")
@@ -193,6 +195,8 @@ def rule_r21_compaction(ctx, prog, rule="R21", body=None):
     b = eliminate_static_refs(prog, b)
     from .facts import thread_constant_flags
     b = thread_constant_flags(prog, b)
+    from .facts import lower_checked_arith
+    b = lower_checked_arith(prog, b)
     za = ZoneAnalysis(b, lambda st, z: None)
     za.run()
     sa = SegmentAnalysis(b, za, nan_pred)
@@ -276,6 +280,8 @@ def rule_r24_selection(ctx, prog, rule="R24"):
     b = eliminate_static_refs(prog, b)
     from .facts import thread_constant_flags
     b = thread_constant_flags(prog, b)
+    from .facts import lower_checked_arith
+    b = lower_checked_arith(prog, b)
     sp = SelectionProof(prog, b, part.key, {b.key})
     try:
         res = sp.prove(ipar[0])
@@ -373,6 +379,8 @@ def rule_r25_bulk_selection(ctx, prog, rule="R25"):
     b = eliminate_static_refs(prog, b)
     from .facts import thread_constant_flags
     b = thread_constant_flags(prog, b)
+    from .facts import lower_checked_arith
+    b = lower_checked_arith(prog, b)
     bp = BulkProof(prog, b, part.key)
     if None in (bp.p_arr, bp.p_idx, bp.p_val):
         ctx.ob(rule, "bulk/parameters", False, b.where(), "anchor missing: (array view, index slice, value slice) parameters", what="anchor missing")
